@@ -300,7 +300,11 @@ def h_self_reach(pre, post, paths, o, slot, root=0):
 
 
 def h_tree(h, paths, root=0):
-    """No object is selected twice along a path (legacy listeners agree with observe only then, C16)."""
+    """No object is selected twice along a path, and no (object, final trait) is selected by two paths (legacy
+    listeners agree with observe only then, C16: the user's handler is registered on the final trait once per
+    object - `_on_trait_change` skips a handler that is already there - and the first path that lets go of the
+    object removes it for the other path too)."""
+    finals = []
     for links, leaf in paths:
         seen = [root]
         objs = [root]
@@ -309,7 +313,8 @@ def h_tree(h, paths, root=0):
             seen += objs
         if len(seen) != len(set(seen)):
             return False
-    return True
+        finals += [(o, leaf) for o in objs]
+    return len(finals) == len(set(finals))
 
 
 def h_root_reentrant(h, paths, root=0):
@@ -2342,6 +2347,9 @@ def corpus():
         "b.b.v 1 o 1 0 0 0 V 0 -|3|mb 0 set:3:0 {3:0} 1;mb 0 set:3:2 {3:2} 1;mb 2 setdefault:0:1 {0:1} 1;rd",
         # legacy, item present twice removed once: documents the behaviour (impl only; tagged observation, no hit)
         "k.v 1 l 0 0 0 0 V 0 -|3|mk 0 append:1 [1] 1;mk 0 append:1 [1,1] 1;rd;mk 0 del:0 [1] 1;rd;sv 1 v 5;rd",
+        # legacy, one object reached through two paths (kids and byname): the handler sits on its `value` once;
+        # kids lets go of it and the byname path is deaf (documents the behaviour; impl only, tagged observation)
+        "k.v+b.v 0 l 0 1 0 1 S 1 - - S|5|K v=6/xm=3/t=[1,3,5]/xe=4~0/k=[2]/b={0:1,3:2};at;sk 0 [4];sv 2 v 2",
         # uncached with listeners
         "b.v 0 o 0 0 0 1 S 0 -|3|at;mb 0 set:1:2 {1:2} 1;sv 2 v 4;rd;dt;sv 2 v 5;rd",
         # the getter legitimately computes None / 0 / '' / []: cached like any other value
